@@ -37,6 +37,20 @@ pub enum Mode {
 pub struct Case {
     pub sync: SyncMode,
     pub steps: Vec<(Size, Mode)>,
+    /// family B (many concurrent clients on one writer thread); `steps` is empty then
+    #[serde(default)]
+    pub burst: Option<Burst>,
+}
+
+/// Family B: 64 buckets on 64 writer threads, so that a writer's request channel holds 16 requests.  The writer
+/// of one bucket is stopped at the pause point before its write while it handles a first append; `clients` more
+/// appends for the same bucket are issued (each future polled once: sent into the channel, or waiting for room in
+/// it); the harness lets `stall_ms` pass (the syncer thread's polls meet a full channel), releases the writer
+/// and awaits every future.
+#[derive(Serialize, Deserialize, Clone, Copy, Debug, PartialEq, Eq, Hash)]
+pub struct Burst {
+    pub clients: usize,
+    pub stall_ms: u64,
 }
 
 fn schedules(len: usize) -> Vec<Vec<Mode>> {
@@ -91,13 +105,88 @@ pub fn cases(tier: Tier) -> Vec<Case> {
             }
             for sched in schedules(len) {
                 for &sync in &syncs {
-                    v.push(Case { sync, steps: h.iter().copied().zip(sched.iter().copied()).collect() });
+                    v.push(Case { sync, steps: h.iter().copied().zip(sched.iter().copied()).collect(), burst: None });
                 }
             }
         }
         hists = next;
     }
+    // family B
+    let bursts: Vec<usize> = if tier.is_thorough() { vec![1, 8, 15, 16, 17, 18, 24, 40] } else { vec![8, 16, 17, 24] };
+    for &sync in &[SyncMode::Custom(5, 10, usize::MAX, usize::MAX), SyncMode::Defaults, SyncMode::Custom(5, 10, 2, usize::MAX)] {
+        for &clients in &bursts {
+            for stall_ms in [0u64, 40] {
+                v.push(Case { sync, steps: vec![], burst: Some(Burst { clients, stall_ms }) });
+            }
+        }
+    }
     v
+}
+
+fn run_burst(case: &Case, b: Burst, out: &mut WorkerOut) {
+    use sierradb::verif as pause;
+    pause::disable_all();
+    let cfg = DbCfg { seg: MIN_SEG, compression: true, sync: case.sync, buckets: 64, writer_threads: 64, reader_threads: 2 };
+    let mut h = match H::new(cfg, "c20b") {
+        Ok(h) => h,
+        Err(e) => vcommon::machinery_fail(&format!("open: {e}")),
+    };
+    let case_json = serde_json::to_value(case).unwrap();
+    let mut futs: Vec<Fut> = Vec::new();
+    let mut issue = |h: &mut H, futs: &mut Vec<Fut>| {
+        let (_m, rtx) = h.build(&TxS::single(0, 0, Size::Tiny));
+        let db = h.db().clone();
+        let rtx = rtx.unwrap();
+        let mut fut: Fut = Box::pin(async move { db.append_events(rtx).await });
+        // one poll: through the channel send (or up to the wait for room in the channel)
+        let _ = h.rt.block_on(async { futures::poll!(fut.as_mut()).is_ready() });
+        futs.push(fut);
+    };
+    pause::enable("append:before-write");
+    issue(&mut h, &mut futs);
+    if !pause::wait_parked("append:before-write", Duration::from_secs(20)) {
+        pause::disable_all();
+        vcommon::machinery_fail("C20 family B: the writer never reached the pause point before its write");
+    }
+    for _ in 0..b.clients {
+        issue(&mut h, &mut futs);
+        out.transitions += 1;
+    }
+    if b.stall_ms > 0 {
+        std::thread::sleep(Duration::from_millis(b.stall_ms));
+    }
+    pause::disable_all();
+    let mut slow = 0u64;
+    for (i, f) in futs.iter_mut().enumerate() {
+        out.transitions += 1;
+        if !await_bounded(&h, f, &mut slow) {
+            out.violation(
+                &format!("C20/append-never-completed/burst/{}", if b.clients >= 16 { "channel-full" } else { "channel-not-full" }),
+                &format!("append #{i} of a burst of 1 + {} concurrent appends to one writer thread (stalled for {} ms before its first write, request channel of 16) did not return within {DEADLINE:?} + {GRACE:?} [sync {:?}]", b.clients, b.stall_ms, case.sync),
+                case_json.clone(),
+            );
+            return;
+        }
+    }
+    // the writer pool must still be alive for the next client
+    let (_m, rtx) = h.build(&TxS::single(0, 0, Size::Tiny));
+    let db = h.db().clone();
+    let rtx = rtx.unwrap();
+    let mut last: Fut = Box::pin(async move { db.append_events(rtx).await });
+    if !await_bounded(&h, &mut last, &mut slow) {
+        out.violation(
+            &format!("C20/append-never-completed/after-burst/{}", if b.clients >= 16 { "channel-full" } else { "channel-not-full" }),
+            &format!("an append issued after a burst of 1 + {} concurrent appends (writer stalled for {} ms, request channel of 16) had completed did not return within {DEADLINE:?} + {GRACE:?} [sync {:?}]", b.clients, b.stall_ms, case.sync),
+            case_json.clone(),
+        );
+        return;
+    }
+    out.count("appends_that_needed_the_grace_period", slow);
+    out.state(vcommon::fnv(format!("{:?}{:?}", case.sync, b).as_bytes()));
+    out.outcome("burst-ok");
+    if out.cases_done % 20 == 0 {
+        out.sample(case_json);
+    }
 }
 
 type Fut = Pin<Box<dyn Future<Output = Result<AppendResult, WriteError>>>>;
@@ -117,6 +206,9 @@ fn await_bounded(h: &H, f: &mut Fut, slow: &mut u64) -> bool {
 }
 
 pub fn run_case(case: &Case, out: &mut WorkerOut) {
+    if let Some(b) = case.burst {
+        return run_burst(case, b, out);
+    }
     let cfg = DbCfg::simple(MIN_SEG, true, case.sync);
     let mut h = match H::new(cfg, "c20") {
         Ok(h) => h,
@@ -206,6 +298,7 @@ pub fn run(args: Args) {
                 "distinct_observed_outcomes": m.outcomes.len(),
                 "outcomes": m.outcomes,
                 "deadline_s": DEADLINE.as_secs(),
+                "family_b": "64 buckets on 64 writer threads (request channel of 16 per thread); one writer is stopped before its first write while 1..40 further appends for its bucket are issued, with and without a 40 ms stall during which the syncer thread polls; every append, and one issued afterwards, must complete",
                 "rule": "schedule = (sync configuration, history of appends, per append: awaited at once | polled once and resumed after step j or at the end, at most 3 parked); all of them up to the stated history length; states = distinct (history, polling schedule)",
             }),
             vec![
